@@ -213,3 +213,10 @@ Theorem call_monotone meth bufsize v v' s k r rest :
   read_call meth bufsize v s = CallResp k r rest -> v <= v' ->
   read_call meth bufsize v' s = CallResp k r rest.
 Proof. unfold read_call. apply read_loop_monotone. Qed.
+
+(* the two-budget form used by the correspondence check is the same function *)
+Theorem read_call2_same meth bufsize v s : read_call2 meth bufsize v v s = read_call meth bufsize v s.
+Proof. reflexivity. Qed.
+
+Theorem run_exchange2_same meth bufsize v s : run_exchange2 meth bufsize v v s = run_exchange meth bufsize v s.
+Proof. reflexivity. Qed.
